@@ -127,76 +127,76 @@ macro_rules! raw_copy {
 }
 
 harnesses! {
-    fn c04_q_to_usize_dna [4] { to_usize::<Dna, 96, 3>(); }
-    fn c04_q_to_usize_amino [4] { to_usize::<Amino, 32, 3>(); }
-    fn c04_q_to_usize_miupac [4] { to_usize::<masked::Iupac, 38, 3>(); }
-    fn c04_t_to_usize_iupac [4] { to_usize::<Iupac, 48, 3>(); }
-    fn c04_t_to_usize_text [4] { to_usize::<text::Dna, 24, 3>(); }
-    fn c04_q_to_u8_dna [4] { to_u8::<Dna, 64, 2>(); }
-    fn c04_q_to_u8_amino [4] { to_u8::<Amino, 21, 2>(); }
-    fn c04_t_to_u8_iupac [4] { to_u8::<Iupac, 32, 2>(); }
-    fn c04_t_to_u8_text [4] { to_u8::<text::Dna, 16, 2>(); }
+    fn c04_q_to_usize_dna [10] { to_usize::<Dna, 96, 3>(); }
+    fn c04_q_to_usize_amino [10] { to_usize::<Amino, 32, 3>(); }
+    fn c04_q_to_usize_miupac [10] { to_usize::<masked::Iupac, 38, 3>(); }
+    fn c04_t_to_usize_iupac [10] { to_usize::<Iupac, 48, 3>(); }
+    fn c04_t_to_usize_text [10] { to_usize::<text::Dna, 24, 3>(); }
+    fn c04_q_to_u8_dna [10] { to_u8::<Dna, 64, 2>(); }
+    fn c04_q_to_u8_amino [10] { to_u8::<Amino, 21, 2>(); }
+    fn c04_t_to_u8_iupac [10] { to_u8::<Iupac, 32, 2>(); }
+    fn c04_t_to_u8_text [10] { to_u8::<text::Dna, 16, 2>(); }
 
-    fn c04_q_kmer_int_dna_k1 [4] { kmer_int::<Dna, 1>(&oracle::DNA); }
-    fn c04_q_kmer_int_dna_k5 [4] { kmer_int::<Dna, 5>(&oracle::DNA); }
-    fn c04_q_kmer_int_dna_k32 [4] { kmer_int::<Dna, 32>(&oracle::DNA); }
-    fn c04_q_kmer_int_iupac_k16 [4] { kmer_int::<Iupac, 16>(&oracle::IUPAC); }
-    fn c04_q_kmer_int_amino_k10 [4] { kmer_int::<Amino, 10>(&oracle::AMINO); }
-    fn c04_t_kmer_int_dna_k31 [4] { kmer_int::<Dna, 31>(&oracle::DNA); }
-    fn c04_t_kmer_int_amino_k3 [4] { kmer_int::<Amino, 3>(&oracle::AMINO); }
-    fn c04_t_kmer_int_miupac_k12 [4] { kmer_int::<masked::Iupac, 12>(&oracle::MIUPAC); }
-    fn c04_t_kmer_int_dna_k2 [4] { kmer_int::<Dna, 2>(&oracle::DNA); }
-    fn c04_t_kmer_int_dna_k3 [4] { kmer_int::<Dna, 3>(&oracle::DNA); }
-    fn c04_t_kmer_int_dna_k4 [4] { kmer_int::<Dna, 4>(&oracle::DNA); }
-    fn c04_t_kmer_int_dna_k6 [4] { kmer_int::<Dna, 6>(&oracle::DNA); }
-    fn c04_t_kmer_int_dna_k7 [4] { kmer_int::<Dna, 7>(&oracle::DNA); }
-    fn c04_t_kmer_int_dna_k8 [4] { kmer_int::<Dna, 8>(&oracle::DNA); }
-    fn c04_t_kmer_int_dna_k9 [4] { kmer_int::<Dna, 9>(&oracle::DNA); }
-    fn c04_t_kmer_int_dna_k10 [4] { kmer_int::<Dna, 10>(&oracle::DNA); }
-    fn c04_t_kmer_int_dna_k11 [4] { kmer_int::<Dna, 11>(&oracle::DNA); }
-    fn c04_t_kmer_int_dna_k12 [4] { kmer_int::<Dna, 12>(&oracle::DNA); }
-    fn c04_t_kmer_int_dna_k13 [4] { kmer_int::<Dna, 13>(&oracle::DNA); }
-    fn c04_t_kmer_int_dna_k14 [4] { kmer_int::<Dna, 14>(&oracle::DNA); }
-    fn c04_t_kmer_int_dna_k15 [4] { kmer_int::<Dna, 15>(&oracle::DNA); }
-    fn c04_t_kmer_int_dna_k16 [4] { kmer_int::<Dna, 16>(&oracle::DNA); }
-    fn c04_t_kmer_int_dna_k17 [4] { kmer_int::<Dna, 17>(&oracle::DNA); }
-    fn c04_t_kmer_int_dna_k18 [4] { kmer_int::<Dna, 18>(&oracle::DNA); }
-    fn c04_t_kmer_int_dna_k19 [4] { kmer_int::<Dna, 19>(&oracle::DNA); }
-    fn c04_t_kmer_int_dna_k20 [4] { kmer_int::<Dna, 20>(&oracle::DNA); }
-    fn c04_t_kmer_int_dna_k21 [4] { kmer_int::<Dna, 21>(&oracle::DNA); }
-    fn c04_t_kmer_int_dna_k22 [4] { kmer_int::<Dna, 22>(&oracle::DNA); }
-    fn c04_t_kmer_int_dna_k23 [4] { kmer_int::<Dna, 23>(&oracle::DNA); }
-    fn c04_t_kmer_int_dna_k24 [4] { kmer_int::<Dna, 24>(&oracle::DNA); }
-    fn c04_t_kmer_int_dna_k25 [4] { kmer_int::<Dna, 25>(&oracle::DNA); }
-    fn c04_t_kmer_int_dna_k26 [4] { kmer_int::<Dna, 26>(&oracle::DNA); }
-    fn c04_t_kmer_int_dna_k27 [4] { kmer_int::<Dna, 27>(&oracle::DNA); }
-    fn c04_t_kmer_int_dna_k28 [4] { kmer_int::<Dna, 28>(&oracle::DNA); }
-    fn c04_t_kmer_int_dna_k29 [4] { kmer_int::<Dna, 29>(&oracle::DNA); }
-    fn c04_t_kmer_int_dna_k30 [4] { kmer_int::<Dna, 30>(&oracle::DNA); }
-    fn c04_t_kmer_int_iupac_k1 [4] { kmer_int::<Iupac, 1>(&oracle::IUPAC); }
-    fn c04_t_kmer_int_iupac_k2 [4] { kmer_int::<Iupac, 2>(&oracle::IUPAC); }
-    fn c04_t_kmer_int_iupac_k3 [4] { kmer_int::<Iupac, 3>(&oracle::IUPAC); }
-    fn c04_t_kmer_int_iupac_k4 [4] { kmer_int::<Iupac, 4>(&oracle::IUPAC); }
-    fn c04_t_kmer_int_iupac_k5 [4] { kmer_int::<Iupac, 5>(&oracle::IUPAC); }
-    fn c04_t_kmer_int_iupac_k6 [4] { kmer_int::<Iupac, 6>(&oracle::IUPAC); }
-    fn c04_t_kmer_int_iupac_k7 [4] { kmer_int::<Iupac, 7>(&oracle::IUPAC); }
-    fn c04_t_kmer_int_iupac_k8 [4] { kmer_int::<Iupac, 8>(&oracle::IUPAC); }
-    fn c04_t_kmer_int_iupac_k9 [4] { kmer_int::<Iupac, 9>(&oracle::IUPAC); }
-    fn c04_t_kmer_int_iupac_k10 [4] { kmer_int::<Iupac, 10>(&oracle::IUPAC); }
-    fn c04_t_kmer_int_iupac_k11 [4] { kmer_int::<Iupac, 11>(&oracle::IUPAC); }
-    fn c04_t_kmer_int_iupac_k12 [4] { kmer_int::<Iupac, 12>(&oracle::IUPAC); }
-    fn c04_t_kmer_int_iupac_k13 [4] { kmer_int::<Iupac, 13>(&oracle::IUPAC); }
-    fn c04_t_kmer_int_iupac_k14 [4] { kmer_int::<Iupac, 14>(&oracle::IUPAC); }
-    fn c04_t_kmer_int_iupac_k15 [4] { kmer_int::<Iupac, 15>(&oracle::IUPAC); }
-    fn c04_t_kmer_int_amino_k1 [4] { kmer_int::<Amino, 1>(&oracle::AMINO); }
-    fn c04_t_kmer_int_amino_k2 [4] { kmer_int::<Amino, 2>(&oracle::AMINO); }
-    fn c04_t_kmer_int_amino_k4 [4] { kmer_int::<Amino, 4>(&oracle::AMINO); }
-    fn c04_t_kmer_int_amino_k5 [4] { kmer_int::<Amino, 5>(&oracle::AMINO); }
-    fn c04_t_kmer_int_amino_k6 [4] { kmer_int::<Amino, 6>(&oracle::AMINO); }
-    fn c04_t_kmer_int_amino_k7 [4] { kmer_int::<Amino, 7>(&oracle::AMINO); }
-    fn c04_t_kmer_int_amino_k8 [4] { kmer_int::<Amino, 8>(&oracle::AMINO); }
-    fn c04_t_kmer_int_amino_k9 [4] { kmer_int::<Amino, 9>(&oracle::AMINO); }
-    fn c04_q_kmer_int_u64 [4] {
+    fn c04_q_kmer_int_dna_k1 [10] { kmer_int::<Dna, 1>(&oracle::DNA); }
+    fn c04_q_kmer_int_dna_k5 [10] { kmer_int::<Dna, 5>(&oracle::DNA); }
+    fn c04_q_kmer_int_dna_k32 [10] { kmer_int::<Dna, 32>(&oracle::DNA); }
+    fn c04_q_kmer_int_iupac_k16 [10] { kmer_int::<Iupac, 16>(&oracle::IUPAC); }
+    fn c04_q_kmer_int_amino_k10 [10] { kmer_int::<Amino, 10>(&oracle::AMINO); }
+    fn c04_t_kmer_int_dna_k31 [10] { kmer_int::<Dna, 31>(&oracle::DNA); }
+    fn c04_t_kmer_int_amino_k3 [10] { kmer_int::<Amino, 3>(&oracle::AMINO); }
+    fn c04_t_kmer_int_miupac_k12 [10] { kmer_int::<masked::Iupac, 12>(&oracle::MIUPAC); }
+    fn c04_t_kmer_int_dna_k2 [10] { kmer_int::<Dna, 2>(&oracle::DNA); }
+    fn c04_t_kmer_int_dna_k3 [10] { kmer_int::<Dna, 3>(&oracle::DNA); }
+    fn c04_t_kmer_int_dna_k4 [10] { kmer_int::<Dna, 4>(&oracle::DNA); }
+    fn c04_t_kmer_int_dna_k6 [10] { kmer_int::<Dna, 6>(&oracle::DNA); }
+    fn c04_t_kmer_int_dna_k7 [10] { kmer_int::<Dna, 7>(&oracle::DNA); }
+    fn c04_t_kmer_int_dna_k8 [10] { kmer_int::<Dna, 8>(&oracle::DNA); }
+    fn c04_t_kmer_int_dna_k9 [10] { kmer_int::<Dna, 9>(&oracle::DNA); }
+    fn c04_t_kmer_int_dna_k10 [10] { kmer_int::<Dna, 10>(&oracle::DNA); }
+    fn c04_t_kmer_int_dna_k11 [10] { kmer_int::<Dna, 11>(&oracle::DNA); }
+    fn c04_t_kmer_int_dna_k12 [10] { kmer_int::<Dna, 12>(&oracle::DNA); }
+    fn c04_t_kmer_int_dna_k13 [10] { kmer_int::<Dna, 13>(&oracle::DNA); }
+    fn c04_t_kmer_int_dna_k14 [10] { kmer_int::<Dna, 14>(&oracle::DNA); }
+    fn c04_t_kmer_int_dna_k15 [10] { kmer_int::<Dna, 15>(&oracle::DNA); }
+    fn c04_t_kmer_int_dna_k16 [10] { kmer_int::<Dna, 16>(&oracle::DNA); }
+    fn c04_t_kmer_int_dna_k17 [10] { kmer_int::<Dna, 17>(&oracle::DNA); }
+    fn c04_t_kmer_int_dna_k18 [10] { kmer_int::<Dna, 18>(&oracle::DNA); }
+    fn c04_t_kmer_int_dna_k19 [10] { kmer_int::<Dna, 19>(&oracle::DNA); }
+    fn c04_t_kmer_int_dna_k20 [10] { kmer_int::<Dna, 20>(&oracle::DNA); }
+    fn c04_t_kmer_int_dna_k21 [10] { kmer_int::<Dna, 21>(&oracle::DNA); }
+    fn c04_t_kmer_int_dna_k22 [10] { kmer_int::<Dna, 22>(&oracle::DNA); }
+    fn c04_t_kmer_int_dna_k23 [10] { kmer_int::<Dna, 23>(&oracle::DNA); }
+    fn c04_t_kmer_int_dna_k24 [10] { kmer_int::<Dna, 24>(&oracle::DNA); }
+    fn c04_t_kmer_int_dna_k25 [10] { kmer_int::<Dna, 25>(&oracle::DNA); }
+    fn c04_t_kmer_int_dna_k26 [10] { kmer_int::<Dna, 26>(&oracle::DNA); }
+    fn c04_t_kmer_int_dna_k27 [10] { kmer_int::<Dna, 27>(&oracle::DNA); }
+    fn c04_t_kmer_int_dna_k28 [10] { kmer_int::<Dna, 28>(&oracle::DNA); }
+    fn c04_t_kmer_int_dna_k29 [10] { kmer_int::<Dna, 29>(&oracle::DNA); }
+    fn c04_t_kmer_int_dna_k30 [10] { kmer_int::<Dna, 30>(&oracle::DNA); }
+    fn c04_t_kmer_int_iupac_k1 [10] { kmer_int::<Iupac, 1>(&oracle::IUPAC); }
+    fn c04_t_kmer_int_iupac_k2 [10] { kmer_int::<Iupac, 2>(&oracle::IUPAC); }
+    fn c04_t_kmer_int_iupac_k3 [10] { kmer_int::<Iupac, 3>(&oracle::IUPAC); }
+    fn c04_t_kmer_int_iupac_k4 [10] { kmer_int::<Iupac, 4>(&oracle::IUPAC); }
+    fn c04_t_kmer_int_iupac_k5 [10] { kmer_int::<Iupac, 5>(&oracle::IUPAC); }
+    fn c04_t_kmer_int_iupac_k6 [10] { kmer_int::<Iupac, 6>(&oracle::IUPAC); }
+    fn c04_t_kmer_int_iupac_k7 [10] { kmer_int::<Iupac, 7>(&oracle::IUPAC); }
+    fn c04_t_kmer_int_iupac_k8 [10] { kmer_int::<Iupac, 8>(&oracle::IUPAC); }
+    fn c04_t_kmer_int_iupac_k9 [10] { kmer_int::<Iupac, 9>(&oracle::IUPAC); }
+    fn c04_t_kmer_int_iupac_k10 [10] { kmer_int::<Iupac, 10>(&oracle::IUPAC); }
+    fn c04_t_kmer_int_iupac_k11 [10] { kmer_int::<Iupac, 11>(&oracle::IUPAC); }
+    fn c04_t_kmer_int_iupac_k12 [10] { kmer_int::<Iupac, 12>(&oracle::IUPAC); }
+    fn c04_t_kmer_int_iupac_k13 [10] { kmer_int::<Iupac, 13>(&oracle::IUPAC); }
+    fn c04_t_kmer_int_iupac_k14 [10] { kmer_int::<Iupac, 14>(&oracle::IUPAC); }
+    fn c04_t_kmer_int_iupac_k15 [10] { kmer_int::<Iupac, 15>(&oracle::IUPAC); }
+    fn c04_t_kmer_int_amino_k1 [10] { kmer_int::<Amino, 1>(&oracle::AMINO); }
+    fn c04_t_kmer_int_amino_k2 [10] { kmer_int::<Amino, 2>(&oracle::AMINO); }
+    fn c04_t_kmer_int_amino_k4 [10] { kmer_int::<Amino, 4>(&oracle::AMINO); }
+    fn c04_t_kmer_int_amino_k5 [10] { kmer_int::<Amino, 5>(&oracle::AMINO); }
+    fn c04_t_kmer_int_amino_k6 [10] { kmer_int::<Amino, 6>(&oracle::AMINO); }
+    fn c04_t_kmer_int_amino_k7 [10] { kmer_int::<Amino, 7>(&oracle::AMINO); }
+    fn c04_t_kmer_int_amino_k8 [10] { kmer_int::<Amino, 8>(&oracle::AMINO); }
+    fn c04_t_kmer_int_amino_k9 [10] { kmer_int::<Amino, 9>(&oracle::AMINO); }
+    fn c04_q_kmer_int_u64 [10] {
         let v = any_u64();
         let k = Kmer::<Dna, 32, u64>::from(v);
         assert!(k.bs == v, "C04.kmer64.from_u64");
@@ -206,18 +206,18 @@ harnesses! {
         reach!("end");
     }
 
-    fn c04_q_kmer_window_dna_k32_usize [6] { kmer_from_window!(Dna, 32, usize, 96, 3) }
-    fn c04_q_kmer_window_dna_k7_usize [6] { kmer_from_window!(Dna, 7, usize, 96, 3) }
-    fn c04_q_kmer_window_amino_k10_usize [6] { kmer_from_window!(Amino, 10, usize, 32, 3) }
-    fn c04_q_kmer_window_dna_k32_u64 [6] { kmer_from_window!(Dna, 32, u64, 96, 3) }
-    fn c04_q_kmer_window_dna_k33_u128 [6] { kmer_from_window!(Dna, 33, u128, 96, 3) }
-    fn c04_q_kmer_window_dna_k64_u128 [6] { kmer_from_window!(Dna, 64, u128, 96, 3) }
-    fn c04_t_kmer_window_amino_k21_u128 [6] { kmer_from_window!(Amino, 21, u128, 32, 3) }
-    fn c04_t_kmer_window_iupac_k32_u128 [6] { kmer_from_window!(Iupac, 32, u128, 48, 3) }
-    fn c04_t_kmer_window_iupac_k16_usize [6] { kmer_from_window!(Iupac, 16, usize, 48, 3) }
+    fn c04_q_kmer_window_dna_k32_usize [10] { kmer_from_window!(Dna, 32, usize, 96, 3) }
+    fn c04_q_kmer_window_dna_k7_usize [10] { kmer_from_window!(Dna, 7, usize, 96, 3) }
+    fn c04_q_kmer_window_amino_k10_usize [10] { kmer_from_window!(Amino, 10, usize, 32, 3) }
+    fn c04_q_kmer_window_dna_k32_u64 [10] { kmer_from_window!(Dna, 32, u64, 96, 3) }
+    fn c04_q_kmer_window_dna_k33_u128 [10] { kmer_from_window!(Dna, 33, u128, 96, 3) }
+    fn c04_q_kmer_window_dna_k64_u128 [10] { kmer_from_window!(Dna, 64, u128, 96, 3) }
+    fn c04_t_kmer_window_amino_k21_u128 [10] { kmer_from_window!(Amino, 21, u128, 32, 3) }
+    fn c04_t_kmer_window_iupac_k32_u128 [10] { kmer_from_window!(Iupac, 32, u128, 48, 3) }
+    fn c04_t_kmer_window_iupac_k16_usize [10] { kmer_from_window!(Iupac, 16, usize, 48, 3) }
 
     // ---- raw images
-    fn c04_q_raw_built_dna [6] {
+    fn c04_q_raw_built_dna [10] {
         // freshly built, word-aligned owned sequence, any length up to two words
         let w = any_words::<2>();
         let n = any_usize();
@@ -229,15 +229,15 @@ harnesses! {
     }
     // owned copies of windows that do not start at a word boundary (concrete
     // shapes, symbolic content: copying is a bit-slice write, see DESIGN 2.4)
-    fn c04_q_raw_copy_dna_o1_n4 [6] { raw_copy!(Dna, oracle::DNA, 64, 1, 4) }
-    fn c04_q_raw_copy_dna_o31_n2 [6] { raw_copy!(Dna, oracle::DNA, 64, 31, 2) }
-    fn c04_t_raw_copy_dna_o29_n4 [6] { raw_copy!(Dna, oracle::DNA, 64, 29, 4) }
-    fn c04_t_raw_copy_dna_o32_n3 [6] { raw_copy!(Dna, oracle::DNA, 64, 32, 3) }
-    fn c04_q_raw_copy_amino_o10_n2 [6] { raw_copy!(Amino, oracle::AMINO, 21, 10, 2) }
-    fn c04_t_raw_copy_amino_o3_n2 [6] { raw_copy!(Amino, oracle::AMINO, 21, 3, 2) }
-    fn c04_t_raw_copy_iupac_o15_n2 [6] { raw_copy!(Iupac, oracle::IUPAC, 32, 15, 2) }
+    fn c04_q_raw_copy_dna_o1_n4 [10] { raw_copy!(Dna, oracle::DNA, 64, 1, 4) }
+    fn c04_q_raw_copy_dna_o31_n2 [10] { raw_copy!(Dna, oracle::DNA, 64, 31, 2) }
+    fn c04_t_raw_copy_dna_o29_n4 [10] { raw_copy!(Dna, oracle::DNA, 64, 29, 4) }
+    fn c04_t_raw_copy_dna_o32_n3 [10] { raw_copy!(Dna, oracle::DNA, 64, 32, 3) }
+    fn c04_q_raw_copy_amino_o10_n2 [10] { raw_copy!(Amino, oracle::AMINO, 21, 10, 2) }
+    fn c04_t_raw_copy_amino_o3_n2 [10] { raw_copy!(Amino, oracle::AMINO, 21, 3, 2) }
+    fn c04_t_raw_copy_iupac_o15_n2 [10] { raw_copy!(Iupac, oracle::IUPAC, 32, 15, 2) }
     // images of EDITED sequences (argument windows at offsets that are not word aligned)
-    fn c04_q_raw_after_prepend [5] {
+    fn c04_q_raw_after_prepend [10] {
         let w = any_words::<2>();
         let a = arr::<Dna, 64, 2>(w);
         let mut s = owned_cap(&a, 40, 2, 2);
@@ -251,7 +251,7 @@ harnesses! {
         reach!("end");
         core::mem::forget(s);
     }
-    fn c04_q_raw_after_insert [5] {
+    fn c04_q_raw_after_insert [10] {
         let w = any_words::<2>();
         let a = arr::<Dna, 64, 2>(w);
         let mut s = owned_cap(&a, 40, 2, 2);
@@ -265,7 +265,7 @@ harnesses! {
         reach!("end");
         core::mem::forget(s);
     }
-    fn c04_q_raw_after_remove_and_append [5] {
+    fn c04_q_raw_after_remove_and_append [10] {
         let w = any_words::<2>();
         let a = arr::<Dna, 64, 2>(w);
         let mut s = owned_cap(&a, 40, 4, 6);
@@ -280,7 +280,7 @@ harnesses! {
         reach!("end");
         core::mem::forget(s);
     }
-    fn c04_q_raw_after_rev [6] {
+    fn c04_q_raw_after_rev [10] {
         let w = any_words::<2>();
         let a = arr::<Dna, 64, 2>(w);
         let s: Seq<Dna> = a[31..34].to_rev();
@@ -291,12 +291,12 @@ harnesses! {
         reach!("end");
         core::mem::forget(s);
     }
-    fn c04_q_from_raw_count_dna_w1 [4] { from_raw_count::<Dna, 1>(&oracle::DNA); }
-    fn c04_q_from_raw_count_dna_w2 [4] { from_raw_count::<Dna, 2>(&oracle::DNA); }
-    fn c04_q_from_raw_count_amino_w2 [4] { from_raw_count::<Amino, 2>(&oracle::AMINO); }
-    fn c04_t_from_raw_count_iupac_w2 [4] { from_raw_count::<Iupac, 2>(&oracle::IUPAC); }
-    fn c04_t_from_raw_count_miupac_w1 [4] { from_raw_count::<masked::Iupac, 1>(&oracle::MIUPAC); }
-    fn c04_q_seq_into_usize [4] {
+    fn c04_q_from_raw_count_dna_w1 [10] { from_raw_count::<Dna, 1>(&oracle::DNA); }
+    fn c04_q_from_raw_count_dna_w2 [10] { from_raw_count::<Dna, 2>(&oracle::DNA); }
+    fn c04_q_from_raw_count_amino_w2 [10] { from_raw_count::<Amino, 2>(&oracle::AMINO); }
+    fn c04_t_from_raw_count_iupac_w2 [10] { from_raw_count::<Iupac, 2>(&oracle::IUPAC); }
+    fn c04_t_from_raw_count_miupac_w1 [10] { from_raw_count::<masked::Iupac, 1>(&oracle::MIUPAC); }
+    fn c04_q_seq_into_usize [10] {
         // From<Seq> for usize on an owned sequence that fits a word
         let w = any_usize();
         let n = any_usize();
